@@ -32,9 +32,9 @@ ASSUMPTIONS = [
 ]
 MIN_EVENTS = {
     'quick': {'connections_checked': 1500, 'payloads_checked': 8000, 'disconnections_checked': 1000,
-              'adv_events_checked': 2000, 'steal_cases': 120, 'churn_cases': 200, 'fragadv_cases': 60},
+              'adv_events_checked': 2000, 'steal_cases': 120, 'churn_cases': 200, 'fragadv_cases': 60, 'ghost_cases': 30},
     'thorough': {'connections_checked': 10000, 'payloads_checked': 60000, 'disconnections_checked': 7000,
-                 'adv_events_checked': 6000, 'steal_cases': 1000, 'churn_cases': 1000, 'fragadv_cases': 400},
+                 'adv_events_checked': 6000, 'steal_cases': 1000, 'churn_cases': 1000, 'fragadv_cases': 400, 'ghost_cases': 200},
 }
 CASE_TIMEOUT = 300
 CID = 0x0074
@@ -52,6 +52,8 @@ def plan(tier, seed):
         cases.append({'kind': 'churn', 'seed': seed * 1000003 + i})
     for i in range(80 if tier == 'quick' else 600):
         cases.append({'kind': 'parallel', 'seed': seed * 1000003 + i})
+    for i in range(60 if tier == 'quick' else 400):
+        cases.append({'kind': 'ghost', 'seed': seed * 1000003 + i})
     for i in range(120 if tier == 'quick' else 800):
         cases.append({'kind': 'fragadv', 'seed': seed * 1000003 + i})
     return cases
@@ -482,6 +484,64 @@ async def churn(case, r: R):
     r.sample = {'kind': 'churn', 'devices': n, 'history': hist}
 
 
+async def ghost(case, r: R):
+    """After a connection was made to an advertiser, its address is no longer advertised (the
+    host was told advertising stopped): a third device must neither hear it nor be able to connect
+    to it, unless the host restarted advertising."""
+    from bumble import hci, core
+    from vlib import rig as vrig
+    rng = random.Random(case['seed'])
+    vrig.seed_entropy(case['seed'])
+    ext = [rng.random() < 0.5 for _ in range(3)]
+    rg = make_rig(rng, case, 3, ext)
+    await rg.power_on()
+    ev = Events(rg)
+    A, B, C = rg.devices
+    use_public = rng.random() < 0.4
+    own = hci.OwnAddressType.PUBLIC if use_public else hci.OwnAddressType.RANDOM
+    await vloop.vwait(B.start_advertising(auto_restart=False, own_address_type=own,
+                                          advertising_interval_min=50, advertising_interval_max=50))
+    target = B.public_address if use_public else B.random_address
+    try:
+        await vloop.vwait(A.connect(target, timeout=20))
+    except Exception as e:
+        r.bad('ghost/first-connect-failed', f'{type(e).__name__}: {e}')
+        return
+    await rg.quiesce()
+    r.ev('steal_cases')
+    r.ev('oracle_evals', 3)
+    kind = ('extended' if ext[1] else 'legacy') + ('/public' if use_public else '/random')
+    if B.is_advertising:
+        r.ev('ghost_host_still_advertising')
+        return
+    heard = []
+    C.on('advertisement', lambda a: heard.append(a) if bytes(a.address) == bytes(target) else None)
+    await vloop.vwait(C.start_scanning(active=False))
+    await asyncio.sleep(1.0)
+    await rg.quiesce()
+    await vloop.vwait(C.stop_scanning())
+    if heard:
+        r.bad(f'ghost/advertising-after-connection/{kind}',
+              f'{len(heard)} advertisements from {target} heard by a third device although its host was told advertising stopped')
+    n_before = len(ev.conn[1])
+    try:
+        c2 = await vloop.vwait(C.connect(target, timeout=3))
+        r.bad(f'ghost/connect-to-non-advertiser-succeeded/{kind}',
+              f'connect({target}) by a third device returned {c2}; the address owner is not advertising')
+    except vloop.Hang:
+        r.bad('ghost/connect-hang', 'connect(timeout=3) pending at T_v')
+    except (core.TimeoutError, asyncio.TimeoutError, core.ConnectionError):
+        pass
+    await rg.quiesce()
+    if len(ev.conn[1]) != n_before:
+        r.bad(f'ghost/unsolicited-connection-on-peripheral/{kind}',
+              f'device 1 was handed {len(ev.conn[1]) - n_before} more connection(s) while not advertising')
+    r.ev('ghost_cases')
+    r.sig('ghost', tuple(ext), use_public)
+    r.evals()
+    r.sample = {'kind': 'ghost', 'advertiser': kind}
+
+
 async def parallel(case, r: R):
     """One device starts two outgoing BR/EDR connects that overlap in time, one of them to an
     address nobody owns: each caller must get the outcome of its own attempt."""
@@ -619,7 +679,7 @@ async def fragadv(case, r: R):
 
 def run_case(case, r: R):
     return {'mesh': mesh, 'steal': steal, 'scan': scan, 'churn': churn, 'parallel': parallel,
-            'fragadv': fragadv}[case['kind']](case, r)
+            'fragadv': fragadv, 'ghost': ghost}[case['kind']](case, r)
 
 
 LEVEL_TEXT = ('Relations over connection/disconnection/advertisement events and a per-device fixed channel on 2-5 '
